@@ -7,7 +7,7 @@ use crate::synth::*;
 use crate::util::*;
 use crate::Ctx;
 use sameold::verif::Taps;
-use sameold::{SameReceiver, SameReceiverBuilder, SameReceiverEvent};
+use sameold::{LinkState, SameEventType, SameReceiver, SameReceiverBuilder, SameReceiverEvent};
 
 pub const STD_RATES: [u32; 8] = [8000, 11025, 16000, 22050, 32000, 44100, 48000, 96000];
 
@@ -1067,10 +1067,35 @@ pub fn run_reset(ctx: &Ctx) {
         }
         .min(prefix.samples.len());
         let mut r = build(cfg, rate);
-        let _ = run_plain(&mut r, &prefix.samples[..p]);
+        // how the caller consumed the prefix: to exhaustion in one binding, or one event per binding, stopping
+        // right after some event (a sample can queue two events: the second is then still queued at reset())
+        let partial = i % 4 == 3;
+        if partial {
+            let mut it = prefix.samples.iter().copied();
+            let stop_after = rng.range(1, 14) as usize;
+            let mut taken = 0usize;
+            loop {
+                let ev = r.iter_events(it.by_ref()).next();
+                match ev {
+                    None => break,
+                    Some(e) => {
+                        taken += 1;
+                        // prefer to stop on a link event that is followed by a transport event of the same sample
+                        let is_burst = matches!(e.what(), SameEventType::Link(LinkState::Burst(_)) | SameEventType::Link(LinkState::NoCarrier));
+                        if taken >= stop_after && (is_burst || taken >= stop_after + 3) {
+                            break;
+                        }
+                    }
+                }
+            }
+            out.count(&format!("consumed:one_event_per_binding_stopped_after_{}", if taken < 5 { taken.to_string() } else { "5+".to_owned() }));
+        } else {
+            let _ = run_plain(&mut r, &prefix.samples[..p]);
+            out.count("consumed:to_exhaustion");
+        }
         r.reset();
         let fresh = build(cfg, rate);
-        let label = format!("sigreset.phase{}.rate{}.cfg{:?}.p{}.case={}", phase, rate, cfg, p, i);
+        let label = format!("sigreset.phase{}.rate{}.cfg{:?}.p{}.partial{}.case={}", phase, rate, cfg, p, partial as u8, i);
         out.spec(&format!("spec.c18.state [{}] => {}", label, first_diff(&masked_debug(&r), &masked_debug(&fresh))));
         // subsequent stream: a clean or impaired transmission starting 0..0.3 s after the reset
         let mut lg2 = gen_line(&mut rng, rate);
@@ -1233,6 +1258,21 @@ fn hostile_segment(a: &mut Audio, rng: &mut Rng, kind: usize) -> &'static str {
             a.raw(&xs);
             "drifting_baud_fsk"
         }
+        16 => {
+            // a transmission that is never closed (header bursts, no trailer), then so long an idle period that the
+            // forced end-of-message timer fires inside the prefix ("any duration"): whatever the timer leaves behind
+            // must not affect the transmission that follows
+            let h = gen_header_any(rng).text().into_bytes();
+            let nb = rng.range(2, 3);
+            for k in 0..nb {
+                a.burst(16, &h, rng);
+                if k + 1 < nb {
+                    a.silence(1.0, rng);
+                }
+            }
+            a.silence(137.0 + rng.unit() * 12.0, rng);
+            "open_header_then_long_idle"
+        }
         _ => {
             let n = rng.range(1, rate as u64) as usize;
             let xs: Vec<f32> = (0..n).map(|i| ((i as f32 / n as f32) * 2.0 - 1.0) * big).collect();
@@ -1318,6 +1358,15 @@ pub fn run_hostile(ctx: &Ctx) {
                 for k in ks {
                     kinds.push(hostile_segment(&mut a, &mut rng, k));
                 }
+            }
+            None if i % 40 == 7 || i % 40 == 23 => {
+                // directed: the long-idle kind (alone, or after one other segment); it is not drawn at random
+                // because each use costs about 140 s of audio
+                if i % 40 == 23 {
+                    let k = rng.below(16) as usize;
+                    kinds.push(hostile_segment(&mut a, &mut rng, k));
+                }
+                kinds.push(hostile_segment(&mut a, &mut rng, 16));
             }
             None => {
                 for _ in 0..nseg {
